@@ -58,16 +58,7 @@ def setup(case, rng, m):
     ttno = L.TTNO(bt, L.build_terms(case["terms"]))
     H = np.asarray(ttno.todense(order))
     np.random.seed(int(rng.integers(0, 2**31 - 1)))
-    try:
-        ttns = L.TTNS.random(bt, int(case.get("qntot", 0)), m)
-    except FloatingPointError:
-        # TTNS.random with a small bond limit can select bond states that leave no admissible root block (0/0);
-        # that is a limitation of the random generator, not of the evolution: truncate a full random state instead
-        ttns = L.TTNS.random(bt, int(case.get("qntot", 0)), 256)
-        ttns.compress_config = L.CompressConfig(L.CompressCriteria.fixed, max_bonddim=int(m))
-        ttns.canonicalise()
-        ttns.compress()
-        ttns.normalize("ttns_and_coeff")
+    ttns = L.random_state(bt, case.get("qntot", 0), m)
     return bt, order, ttno, H, ttns
 
 
@@ -141,8 +132,13 @@ def check_exact(case, rng):
             stats["errs"]["%s/%s" % (method, "imag" if imag else "real")] = errs
             if method in ("ps", "ps2") and shrunk:
                 stats["ps_shrunk"] = True
+                # both schemes are symmetric compositions (C12_ps_symmetric, C12_ps2_symmetric): local error O(step^3), i.e. a
+                # factor 8 on halving; demand 5.5 where the errors are well above the solver tolerance (fix 036c1e3: before it
+                # the one-site scheme gave 4 on branching trees)
                 for a, b, s1, s2 in zip(errs, errs[1:], steps, steps[1:]):
-                    if abs(s1 / s2 - 2.0) < 1e-12 and a > 1e-8 and b > a / 4.0:
+                    if abs(s1 / s2 - 2.0) < 1e-12 and a > 1e-7:
+                        stats.setdefault("halving_ratios", {}).setdefault(method, []).append(a / max(b, 1e-300))
+                    if abs(s1 / s2 - 2.0) < 1e-12 and a > 1e-6 and b > a / 5.5:
                         fails.append({"what": "projector-splitting error does not decrease with its order", "method": method,
                                       "imag": imag, "steps": [s1, s2], "errs": [a, b]})
             if method == "pc":
@@ -366,7 +362,58 @@ def check_aux(case, rng):
     return fails, stats
 
 
-CHECKS = {"exact": check_exact, "small": check_small, "chain": check_chain, "aux": check_aux}
+def check_coeff(case, rng):
+    """states whose prefactor (coeff) is not 1: real time must carry it through, imaginary time normalises it"""
+    fails, stats = [], {"errs": {}}
+    bt, order, ttno, H, ttns0 = setup(case, rng, 256)
+    hn = float(np.linalg.norm(H, 2))
+    step = float(case["step"])
+    for c in case["coeffs"]:
+        c = complex(c[0], c[1]) if c[1] else float(c[0])
+        for method in case["methods"]:
+            for imag in case["imag"]:
+                t = L.config(ttns0.copy(), method)
+                t.coeff = c
+                psi0 = L.dense(t, order)
+                tau = tau_of(step, imag)
+                new = t.evolve(ttno, tau)
+                v = L.dense(new, order)
+                ref = L.exact(H, psi0, tau)
+                err = float(np.linalg.norm(v - ref))
+                x = hn * step
+                tol = (2.0 * x**5 / 120.0 * np.exp(x) + 1e-9) if method == "pc" else \
+                      (x**3 + 1e-8 if list(new.bond_dims) != list(ttns0.bond_dims) else TOL_EXACT[method])
+                tol *= max(1.0, abs(c))
+                stats["errs"]["%s/%s/%r" % (method, "imag" if imag else "real", c)] = err
+                if err > tol:
+                    fails.append({"what": "prefactor not carried through evolve", "method": method, "imag": imag, "coeff": repr(c),
+                                  "coeff_out": repr(new.coeff), "norm_in": float(np.linalg.norm(psi0)),
+                                  "norm_out": float(np.linalg.norm(v)), "err": err, "tol": tol})
+    return fails, stats
+
+
+def check_run(case, rng):
+    """the evolution of a random state with bond limit m must not raise (replay of an event-trace case that raised)"""
+    fails, stats = [], {}
+    bt, order = L.build_basis(case["tree"])
+    ttno = L.TTNO(bt, L.build_terms(case["terms"]))
+    bts = bt.add_auxiliary_space() if case.get("aux") else bt
+    seeds = ([int(case["np_seed"])] if case.get("np_seed") is not None else []) + list(range(int(case.get("tries", 5))))
+    for seed in seeds:
+        np.random.seed(seed)
+        ttns = L.random_state(bts, case.get("qntot", 0), int(case.get("m", 3)))
+        L.config(ttns, case["method"], m=case.get("m", 3))
+        tau = complex(case["tau"][0], case["tau"][1]) if case["tau"][1] != 0 else float(case["tau"][0])
+        try:
+            ttns.evolve(ttno, tau)
+        except Exception as e:
+            import traceback
+            fails.append({"what": "evolve raised", "method": case["method"], "error": repr(e), "tb": traceback.format_exc()[-900:]})
+            break
+    return fails, stats
+
+
+CHECKS = {"exact": check_exact, "small": check_small, "chain": check_chain, "aux": check_aux, "coeff": check_coeff, "run": check_run}
 
 
 def check_case(case, seed=0):
